@@ -47,7 +47,7 @@ manifest = {
  "setup_cmd": "./setup.sh",
  "hooks": {
   "guard": "verif",
-  "enable": "No hook is committed to /repo. Schedule control for C07 is obtained at check time: ./check copies /repo's working tree to a scratch directory, tools/instrument inserts simrt.Yield before every statement of the root package and routes X.Lock()/X.RLock() through simrt.Acquire (go/ast rewrite), and the simulator is built against that copy with -tags concsim. All other engines build against /repo itself through the public API.",
+  "enable": "No hook is committed to /repo. Schedule control for C07 and for stage 1 of C19 (concurrent consumers) is obtained at check time: ./check copies /repo's working tree to a scratch directory, tools/instrument inserts simrt.Yield before every statement of every package (splitting tuple assignments whose right-hand sides contain two or more calls), routes X.Lock()/X.RLock() through simrt.Acquire and sync.Once.Do through simrt.OnceDo (go/ast rewrite), and the simulator is built against that copy with -tags concsim. All other engines build against /repo itself through the public API - unless the tree under test imports \"time\" (the pinned tree does not): then every build goes through such a copy in which time.Now/Since/Until/Sleep/AfterFunc read the simulator's clock (tools/instrument -clock, -tags simclock).",
   "baseline_off_cmd": "cd /repo && GOFLAGS=-mod=mod GOPROXY=off GOSUMDB=off go test -vet=off -count=1 ./...",
   "source_commits": [],
   "add_only": True,
